@@ -7,7 +7,7 @@ use std::collections::HashMap;
 use std::fmt::Write as _;
 use std::sync::atomic::{AtomicU64, Ordering};
 use std::sync::{Arc, Mutex};
-use std::task::{Wake, Waker};
+use std::task::Waker;
 
 use serde::Deserialize;
 
@@ -136,16 +136,39 @@ impl World {
     }
 }
 
-/// The caller's waker of one generation.
+/// The caller's waker of one generation: a hand-rolled `RawWaker` (data = `Arc<ParentWake>`), so that
+/// the caller-provided code a combinator runs - `clone`, `wake`, `wake_by_ref`, `drop` of the waker - can
+/// take its time in thread mode: a slow (but perfectly legal) executor widens the windows in which a
+/// combinator has released its readiness lock around such a call.
 pub struct ParentWake {
     pub g: i64,
 }
 
-impl Wake for ParentWake {
-    fn wake(self: Arc<Self>) {
-        self.wake_by_ref()
+/// Thread mode is active: caller-provided waker code dawdles.
+pub static DAWDLE: std::sync::atomic::AtomicBool = std::sync::atomic::AtomicBool::new(false);
+static DAWDLE_SEED: AtomicU64 = AtomicU64::new(0x9E3779B97F4A7C15);
+
+fn dawdle() {
+    if !DAWDLE.load(Ordering::Relaxed) {
+        return;
     }
-    fn wake_by_ref(self: &Arc<Self>) {
+    let x = DAWDLE_SEED.fetch_add(0x9E3779B97F4A7C15, Ordering::Relaxed);
+    let z = (x ^ (x >> 29)).wrapping_mul(0xBF58476D1CE4E5B9) >> 40;
+    match z % 8 {
+        0 | 1 | 2 => {}
+        3 => std::thread::yield_now(),
+        4 => std::thread::sleep(std::time::Duration::from_micros(z % 150)),
+        _ => {
+            for _ in 0..(z % 4000) {
+                std::hint::spin_loop();
+            }
+        }
+    }
+}
+
+impl ParentWake {
+    fn do_wake(&self) {
+        dawdle();
         let g = self.g;
         with(|w| {
             if (g as usize) < w.woken.len() {
@@ -157,11 +180,33 @@ impl Wake for ParentWake {
     }
 }
 
+unsafe fn pw_clone(p: *const ()) -> std::task::RawWaker {
+    dawdle();
+    Arc::increment_strong_count(p as *const ParentWake);
+    std::task::RawWaker::new(p, &PW_VTABLE)
+}
+unsafe fn pw_wake(p: *const ()) {
+    let a = Arc::from_raw(p as *const ParentWake);
+    a.do_wake();
+}
+unsafe fn pw_wake_by_ref(p: *const ()) {
+    (*(p as *const ParentWake)).do_wake();
+}
+unsafe fn pw_drop(p: *const ()) {
+    drop(Arc::from_raw(p as *const ParentWake));
+}
+static PW_VTABLE: std::task::RawWakerVTable = std::task::RawWakerVTable::new(pw_clone, pw_wake, pw_wake_by_ref, pw_drop);
+
+fn parent_waker(g: i64) -> Waker {
+    let p = Arc::into_raw(Arc::new(ParentWake { g })) as *const ();
+    unsafe { Waker::from_raw(std::task::RawWaker::new(p, &PW_VTABLE)) }
+}
+
 /// Create the parent waker of a new generation and register it.
 pub fn new_parent() -> (i64, Waker) {
     with(|w| {
         let g = w.parents.len() as i64;
-        let wk: Waker = Arc::new(ParentWake { g }).into();
+        let wk: Waker = parent_waker(g);
         w.parent_ptr.insert(wk.data() as usize, g);
         w.parents.push(wk.clone());
         w.woken.push(false);
